@@ -170,6 +170,11 @@ fn pow_truncation() {
     } else if a > 1 || a < -1 {
         // |a| >= 2 and e >= 2^32: the exact result never fits
         assert!(got.is_none());
+    } else if a == 0 || a == 1 {
+        // the exact result fits (C13: exact whenever operands and result fit)
+        assert!(got == Some(a));
+    } else {
+        assert!(got == Some(if e % 2 == 0 { 1 } else { -1 }));
     }
     std::mem::forget(x);
     std::mem::forget(y);
